@@ -1,6 +1,94 @@
-"""Verus unit (filled in with the extraction machinery)."""
+"""Verus unit: Five::find_in_products extracted verbatim from /repo on every run."""
+import importlib.util, os, re, subprocess, time
+
+ROOT = os.path.dirname(os.path.dirname(os.path.abspath(__file__)))
+WORK = os.path.join(ROOT, "work")
+
+ERR_RE = re.compile(r"^error: (.*?)\n\s*--> ([^\n:]+):(\d+):(\d+)", re.M)
+
+
+def _load_extract():
+    spec = importlib.util.spec_from_file_location("extract", os.path.join(ROOT, "verus", "extract.py"))
+    m = importlib.util.module_from_spec(spec)
+    spec.loader.exec_module(m)
+    return m
 
 
 def run(o, log):
-    return {"status": "undecided", "reason": "verus unit not built yet", "checks": 0, "covers": {},
-            "failed_clauses": [], "failed_safety": [], "time_s": None, "engine": "verus"}
+    os.makedirs(WORK, exist_ok=True)
+    ex = _load_extract()
+    out_path = os.path.join(WORK, "find_in_products.rs")
+    base = {"checks": 0, "covers": {}, "failed_clauses": [], "failed_safety": [], "time_s": None,
+            "engine": "verus 0.2026.09.13 / z3"}
+    try:
+        info = ex.build(out_path, must_fail_twin=True)
+    except ex.ExtractError as e:
+        return dict(base, status="undecided", reason="extraction: " + str(e))
+    except OSError as e:
+        return dict(base, status="undecided", reason="extraction: " + str(e))
+    text = open(out_path).read()
+    lines = text.splitlines()
+    # trust scan of the generated file
+    for word in ("assume(", "admit(", "external_body", "assume_specification", "external_fn_specification"):
+        if word in text:
+            return dict(base, status="undecided", reason="generated Verus file contains `%s`" % word)
+    # line ranges of the real function and of the twin
+    def fn_range(name):
+        for i, l in enumerate(lines):
+            if ("fn %s(" % name) in l:
+                depth = 0
+                started = False
+                for j in range(i, len(lines)):
+                    code = lines[j].split("//")[0]
+                    depth += code.count("{") - code.count("}")
+                    if "{" in code:
+                        started = True
+                    if started and depth == 0:
+                        return (i + 1, j + 1)
+        return None
+    real_rng = fn_range("find_in_products")
+    twin_rng = fn_range("find_in_products_must_fail_twin")
+    t0 = time.time()
+    log("verus: find_in_products (extracted from /repo/src/cards/five.rs) + must-fail twin")
+    try:
+        p = subprocess.run(["verus", out_path, "--time"], cwd=WORK, stdout=subprocess.PIPE, stderr=subprocess.STDOUT,
+                           text=True, timeout=int(o.get("timeout", 900)))
+    except subprocess.TimeoutExpired:
+        return dict(base, status="undecided", reason="verus timeout")
+    wall = time.time() - t0
+    out = "\n".join(l for l in p.stdout.splitlines() if not re.match(r"^\s*\d+\s*\|?\s*[0-9, ]+$", l))
+    m = re.search(r"verification results:: (\d+) verified, (\d+) errors", out)
+    if not m:
+        return dict(base, status="undecided", reason="verus produced no verdict (unsupported construct / compile error)",
+                    raw_tail=out[-3000:])
+    verified, nerr = int(m.group(1)), int(m.group(2))
+    smt = re.search(r"total smt-time:\s+(\d+) ms", out)
+    res = dict(base, checks=verified + nerr, time_s=round(wall, 1), summary=m.group(0),
+               smt_ms=int(smt.group(1)) if smt else None, raw_tail=out[-3000:],
+               extraction={k: info[k] for k in ("source", "span_bytes", "sha256_source_span", "sha256_extracted_body", "verbatim")})
+    if "rlimit" in out.lower() and "exceeded" in out.lower():
+        return dict(res, status="undecided", reason="verus resource limit exceeded")
+    errs = []
+    twin_rejected = False
+    for em in ERR_RE.finditer(out):
+        msg, _file, line, _col = em.group(1), em.group(2), int(em.group(3)), em.group(4)
+        if msg.startswith("aborting"):
+            continue
+        code = lines[line - 1].strip() if 0 < line <= len(lines) else ""
+        if twin_rng and twin_rng[0] <= line <= twin_rng[1]:
+            twin_rejected = True
+            continue
+        where = "find_in_products" if real_rng and real_rng[0] <= line <= real_rng[1] else "prelude"
+        errs.append({"description": "C05.find_total: %s at `%s`" % (msg, code), "location": "%s (extracted) line %d" % (where, line),
+                     "check": where})
+    res["covers"] = {"C05.find_total.must_fail_twin_rejected": "SATISFIED" if twin_rejected else "UNSATISFIABLE"}
+    if errs:
+        res["failed_clauses"] = errs
+        res["status"] = "failed"
+        return res
+    if not twin_rejected:
+        return dict(res, status="undecided", reason="vacuity guard: the `ensures false` twin was not rejected")
+    if verified < 10:
+        return dict(res, status="undecided", reason="fewer verified items than expected (%d)" % verified)
+    res["status"] = "discharged"
+    return res
